@@ -30,6 +30,10 @@ class TaskAnchors:
         for call, c in self.a.func_calls(S):
             if c.kind == "func" and c.func is self.register and call.args and isinstance(call.args[0], ast.Name) and call.args[0].id in S.nested:
                 return S.nested[call.args[0].id]
+        # not registered through the normal route: the nested coroutine that deals with the task handle
+        for nf in S.nested.values():
+            if any(isinstance(c, ast.Call) and call_name(c) in ("wait_finished", "cancel") for c in walk_own(nf.node)):
+                return nf
         raise AnalysisError("anchor-missing service-task finalizer (nested function registered as teardown callback)")
 
     @cached_property
@@ -137,6 +141,9 @@ def runner_rules(ctx, ta: TaskAnchors, rule: str, handler_rule: str | None = Non
         return
     tries = [t for t in walk_own(R.node) if isinstance(t, ast.Try) and any(any(x is s for x in ast.walk(fb)) for fb in t.finalbody for s in sets)]
     ok_fin = bool(tries) and any(any(x is sw for b in t.body for x in ast.walk(b)) for t in tries)
+    early = [s for s in sets if any(x is s for x in ast.walk(sw))]
+    for s in early:
+        rep.violate(rule, R, s, "the finished event is (also) set inside the task's cancel scope / context block, i.e. before the task's own context has been torn down: teardown of the owner proceeds while the task's context is still tearing down")
     rep.check(rule, ok_fin, R, sets[0], "the finished event is set in a `finally` that covers the cancel scope and the task's context (the task AND its context have completely finished)", "the finished event is set before the task's own context has been torn down (or not on every exit): teardown proceeds while the task is still running")
     # on the CFG: every path from entering the scope to any exit passes a set node
     set_nodes = [n.id for s in sets for n in cfg.nodes_containing(s)]
